@@ -20,7 +20,7 @@ func init() {
 		Category: "model_checking",
 		Rule: "(a) every sequence over {Write(piece), Flush}^<=d (Flush first, repeated Flush, Flush with nothing pending included) for every accelerated flate setting and for gzip/zlib, closed at the end; " +
 			"(b) every string over {a,b} up to length 9 / {a,b,c} up to 6 with a Flush after every prefix length (the bit position a block ends on is a function of the data); " +
-			"(c) for every accelerated setting every data size 1..700 (3000 thorough) of three content kinds: Write, Flush, Write 100 more, Flush (the number of bits pending when the sync marker is written sweeps all its values); " +
+			"(c) for every accelerated setting every data size 1..400 (3000 thorough) of three content kinds: Write, Flush, Write 100 more, Flush (the number of bits pending when the sync marker is written sweeps all its values); " +
 			"oracle at every Flush()==nil on the bytes emitted so far; non-trivial = at least one Flush happened after at least one byte was written",
 		Assumptions: []string{"compress/flate and the reference inflater stand for 'any conforming inflater'"},
 		Quick:       TierSpec{MaxDev: -1, Shards: 4, ShardDepth: 3, BudgetS: 150},
@@ -115,7 +115,7 @@ func c10Harness(cfg *Cfg) func(x *mc.Exec) {
 			if !k.Accelerated() {
 				return
 			}
-			N := 700
+			N := 400
 			if cfg.Thorough {
 				N = 3000
 			}
